@@ -17,8 +17,9 @@ from . import pipeline as P
 
 
 def xml_pred(c, i):
-    """printable ASCII (what an attribute value can carry unchanged through expat)"""
-    return z3.And(c >= 32, c <= 126)
+    """printable ASCII plus TAB, LF and CR (written as character references by quoteattr, so they reach
+    the handler unchanged through expat as well)"""
+    return z3.Or(z3.And(c >= 32, c <= 126), c == 9, c == 10, c == 13)
 
 
 def H(n, i):
@@ -31,7 +32,7 @@ def CAT(*parts):
 
 
 def nodot_pred(c, i):
-    return z3.And(c >= 32, c <= 126, c != 46)
+    return z3.And(xml_pred(c, i), c != 46)
 
 
 S = lambda _el, **a: ('s', _el, a)      # noqa
@@ -168,6 +169,28 @@ DOCS_T = DOCS_Q + DOCS_V + [
 ]
 
 
+# documents with <import src=...>: the imported resources are concrete and served from memory; the names
+# of the importing document's own types are symbolic, so they may collide with an imported name
+OTHER = ('<schema><sectiontype name="ta"><key name="ka"/></sectiontype><abstracttype name="ab"/></schema>',
+         [('ta', False), ('ab', True)])
+THIRD = ('<schema><sectiontype name="TA"/><sectiontype name="tc"/></schema>', [('ta', False), ('tc', False)])
+FOURTH = ('<schema><abstracttype name="ta"/></schema>', [('ta', True)])
+DOCS_I = [
+    ([S('schema'), S('sectiontype', name=H(2, 't1')), E('sectiontype'), S('import', src='other.xml'), E('import'),
+      S('sectiontype', name=H(2, 't2'), extends=H(2, 'e1')), E('sectiontype'), E('schema')], {'other.xml': OTHER}),
+    ([S('schema'), S('import', src='other.xml'), E('import'), S('abstracttype', name=H(2, 'a1')), E('abstracttype'),
+      S('section', type=H(2, 's1'), name='*', attribute='sx'), E('section'), E('schema')], {'other.xml': OTHER}),
+    ([S('schema'), S('import', src='other.xml'), E('import'), S('import', src='sub/third.xml'), E('import'), E('schema')],
+     {'other.xml': OTHER, 'sub/third.xml': THIRD}),
+    ([S('schema'), S('import', src='sub/third.xml'), E('import'), S('import', src='other.xml'), E('import'), E('schema')],
+     {'other.xml': OTHER, 'sub/third.xml': THIRD}),
+    ([S('schema'), S('import', src='other.xml'), E('import'), S('import', src='fourth.xml'), E('import'), E('schema')],
+     {'other.xml': OTHER, 'fourth.xml': FOURTH}),
+    ([S('schema'), S('import', src='sub/third.xml'), E('import'), S('sectiontype', name=H(2, 't1'), implements=H(2, 'i1')),
+      E('sectiontype'), E('schema')], {'sub/third.xml': THIRD}),
+]
+
+
 class C10(Harness):
     prop = 'C10'
     domain = 'D'
@@ -181,10 +204,12 @@ class C10(Harness):
     assumptions = (
         'documents: the enumerated event-stream templates of vf/harness/c10.py (element sequences and which '
         'attribute values are symbolic); attribute values are printable ASCII of the stated lengths',
-        'XML well-formedness, entities, encodings, <import> and dotted (imported) datatype names are outside '
+        'XML well-formedness, entities, encodings, <import package=...> and dotted (imported) datatype names are outside '
         'the claim: datatype / keytype values contain no "." (an unimportable dotted name raises ImportError, '
         'which Registry.get documents as unspecified)',
         'a wildcard key default whose key is not valid under the key type: rejected, error class not asserted',
+        '<import src=...>: the imported resources are concrete documents served from memory (DOCS_I); only the '
+        'importing document has symbolic attribute values',
     )
     expected_classes = ('accept', 'reject')
     nontrivial_rule = 'every completed path'
@@ -198,9 +223,12 @@ class C10(Harness):
         return 170 if tier == 'quick' else 1200
 
     def units(self, tier):
-        return [{'doc': i} for i in range(len(DOCS_Q) + len(DOCS_V) if tier == 'quick' else len(DOCS_T))]
+        return [{'doc': i} for i in range(len(DOCS_Q) + len(DOCS_V) if tier == 'quick' else len(DOCS_T))] + \
+            [{'idoc': i} for i in range(len(DOCS_I))]
 
     def _doc(self, unit):
+        if 'idoc' in unit:
+            return DOCS_I[unit['idoc']][0]
         return DOCS_T[unit['doc']]
 
     def inputs(self, eng, unit):
@@ -253,11 +281,20 @@ class C10(Harness):
                     raise OSError('illegal IP address string passed to inet_pton')
                 return b''
             instr.INET6['fn'] = stub
+        store = {}
+        if 'idoc' in unit:
+            store = {P.BASE + k: [v[0]] for k, v in DOCS_I[unit['idoc']][1].items()}
         try:
-            if concrete:
+            if concrete and store:
+                with P.mem_resources(store):
+                    zl.SchemaLoader().loadFile(io.StringIO(render(evs)), P.BASE + 's.xml')
+            elif concrete:
                 ZConfig.loadSchemaFile(io.StringIO(render(evs)))
             else:
-                p = zs.SchemaParser(zl.SchemaLoader(), 'mem:/s.xml')
+                p = zs.SchemaParser(zl.SchemaLoader(), (P.BASE + 's.xml') if store else 'mem:/s.xml')
+                if store:
+                    res = P.mem_resources(store)
+                    res.__enter__()
                 p.startDocument()
                 for ev in evs:
                     if ev[0] == 's':
@@ -276,8 +313,12 @@ class C10(Harness):
             return ('crash', type(e).__name__, str(e)[:60])
         finally:
             instr.INET6['fn'] = None
+            if store and not concrete:
+                res.__exit__(None, None, None)
 
     def expect(self, unit, inp, real):
+        if 'idoc' in unit:
+            return (R.check(self.events(unit, inp), {k: v[1] for k, v in DOCS_I[unit['idoc']][1].items()}),)
         return (R.check(self.events(unit, inp)),)
 
     def agree(self, unit, real, exp):
